@@ -44,8 +44,12 @@ def run(ctx):
         ex.logon_exchange()
         nt = rng.choice([2, 3, 4, 8])
         per = rng.choice([5, 20, 60])
-        ex.sendpar(nt, per, rng.choice([1, 1, 2, 3]) if pm == "thread" else rng.choice([1, 1, 3]))
+        bs = rng.choice([1, 1, 2, 3]) if pm == "thread" else rng.choice([1, 1, 3])
+        # batches only, singles only, or (every other batch run) threads that batch next to threads that send single messages
+        ex.sendpar(nt, per, bs, mix=(bs > 1 and i % 4 < 2))
         ex.sendpar(rng.choice([2, 5]), 10, 1)
+        if pm == "thread":
+            ex.sendpar(4, 30, 3, mix=True)
         groups["tsan" if i % 4 == 0 else ("asan" if i % 4 == 1 else "plain")].append(ex)
     execs, traces, aborts = [], [], []
     for var, g in groups.items():
